@@ -90,10 +90,13 @@ def rec_fit(args):
     rec = {'id': idx, 'kind': 'fit', 'raised': False, 'demand_fit': c['eps'] <= 50 or rnd, 'fix_center': fixc, 'fix_pa': fixp, 'fix_eps': fixe, 'params': c}
     try:
         g = EllipseGeometry(x0i, y0i, (10.0 * sc if not rnd else [50.0, 45.0, 40.0][c['pa'] % 3]), epsi, pai) if not lingeo else EllipseGeometry(x0i, y0i, 10.0 * sc, epsi, pai, astep=2.0, linear_growth=True)
+        via_geometry = idx % 2 == 1 and not lingeo and (fixc or fixp or fixe)
+        if via_geometry:      # the flags given through the geometry (the documented alternative to the fit_image keywords)
+            g = EllipseGeometry(x0i, y0i, (10.0 * sc if not rnd else [50.0, 45.0, 40.0][c['pa'] % 3]), epsi, pai, fix_center=fixc, fix_pa=fixp, fix_eps=fixe)
         el = Ellipse(img, g)
         iso = el.fit_image(sma0=(10.0 * sc if not rnd else [50.0, 45.0, 40.0][c['pa'] % 3]), minsma=minsma, maxsma=maxsma, step=step, linear=(None if lingeo else linear),
                            integrmode='nearest_neighbor' if c['mode'] == 'nearest' else (c['mode'] if c['mode'] in ('mean', 'median') else 'bilinear'),
-                           fix_center=fixc, fix_pa=fixp, fix_eps=fixe, maxrit=(13.0 if c['mode'] == 'maxrit' else None))
+                           maxrit=(13.0 if c['mode'] == 'maxrit' else None), **({} if via_geometry else dict(fix_center=fixc, fix_pa=fixp, fix_eps=fixe)))
         n = len(iso)
         fk = lambda v, s: int(round(float(v) * s)) if np.isfinite(v) else 0  # noqa
         rec['sma'] = [fk(i.sma, S) for i in iso]
